@@ -61,8 +61,18 @@ class Lex:
     def is_int(text):
         return Lex._INT.match(text) is not None
 
+    # Lower-case reserved words only; the other token types are internal.
+    _KEYWORDS = {
+        name.lower(): token_type
+        for name, token_type in TokenTypes.__members__.items()}
+    for _internal in (
+            'compare', 'eof', 'error', 'literal_string', 'mark', 'name',
+            'number', 'register', 'syntax_error', 'time_pattern', 'unknown'):
+        del _KEYWORDS[_internal]
+    del _internal
+
     def _token_type(self, word):
-        token_type = TokenTypes.__members__.get(word.upper())
+        token_type = self._KEYWORDS.get(word)
         if token_type is not None:
             return token_type
         if word in self._REG_LIST:
